@@ -187,6 +187,11 @@ class Run:
             return
         if self.mode == "none":
             return
+        if lv.tainted:
+            # what this solver holds is not known to the reference (an add() raised half-way, or the harness changed it
+            # behind the reference's back on purpose): its answers are not judged, only compared by probes
+            res.count("not_judged_state_unknown")
+            return
         res.count("answers_judged")
         a = self.ans(lv, extra_d)
         sat = a.sat()
